@@ -2,7 +2,7 @@
    at the message schemas. *)
 From Coq Require Import ZifyN ZifyNat ZifyBool.
 From Common Require Import Bytes Outcome.
-From Scale Require Import Compact Types Spec Codec MonadLemmas Total Cost.
+From Scale Require Import Compact Types Spec Codec MonadLemmas Total Cost WellTyped.
 From C33 Require Import Model.
 Local Open Scope N_scope.
 
@@ -66,3 +66,18 @@ Lemma bytes_alloc_witness :
   decode_res current s_lreq bs = Err 1%nat /\ 500000 <= decode_cost current s_lreq bs /\
   bytes_alloc s_lreq bs = true /\ decode_cost ideal s_lreq bs <= 5000.
 Proof. vm_compute. repeat split; try reflexivity; discriminate. Qed.
+
+(* successfully decoded messages re-encode to equal messages: marshalling the decoded value and
+   decoding again gives the same value (every schema is map-free and has no option of an enum) *)
+Lemma schemas_shape : forallb map_free schemas = true /\ forallb no_opt_enum schemas = true.
+Proof. vm_compute. split; reflexivity. Qed.
+
+Lemma reencode_schemas t bs v r r' : In t schemas ->
+  decode_res current t bs = Ok (v, r) ->
+  decode_res current t (encode_go t v ++ r') = Ok (v, r').
+Proof.
+  intros H D. destruct schemas_shape as [MF NOE].
+  apply (reencode current t bs v r r' eq_refl eq_refl eq_refl (schema_wf t H)); [| |exact D].
+  - exact (proj1 (forallb_forall map_free _) MF t H).
+  - exact (proj1 (forallb_forall no_opt_enum _) NOE t H).
+Qed.
